@@ -35,8 +35,9 @@ ASSUMPTIONS = [
     "up-then-down must restore name and octave exactly for names without redundant accidentals; for the 14 mixed "
     "spellings of length 2 ('C#b', 'Cb#') the pitch number and either the original or the reduced name are required (the interval "
     "constructors return reduced spellings by design)",
-    "when the exact result of a downward transposition lies below octave 0 the statement's last sentence ('never "
-    "goes below octave 0') conflicts with exact arithmetic: either the exact octave or octave 0 is accepted there",
+    "transposition is judged by exact arithmetic also when the result lies below octave 0 (the library yields octave -1 "
+    "there): 'lowers its pitch number by exactly that many semitones' has no exception, and the last sentence ('changing the "
+    "octave never goes below octave 0') is read as a statement about change_octave / octave_up / octave_down only",
     "'changing the octave' by d gives octave + d whenever that is >= 0 (the meaning of the operation) and is only "
     "required to be >= 0 otherwise",
     "containers of the zoo never share a Note or NoteContainer object between entries (aliasing is C15's subject); "
@@ -69,10 +70,6 @@ def judge_note(S, site, n, want_letter, want_number, tags=None):
         S.problem(site + " letter", want_letter, n.name, detail={"note": [n.name, n.octave]}, tags=tags)
         return False
     if got != want_number:
-        exact_octave = R.octave_of(n.name, want_number)
-        if exact_octave is not None and exact_octave < 0 and n.octave == 0:
-            S.count("below_octave_0_clamped_accepted")
-            return True
         S.problem(site + " pitch number", want_number, got, detail={"note": [n.name, n.octave]}, tags=tags)
         return False
     if int(n) != want_number:
@@ -225,6 +222,11 @@ ZOO = [
      {"key": "C", "meter": [4, 4], "entries": [_e("1", [["C#", 4]], "note")]},
      {"key": "C", "meter": [4, 4], "entries": [_e("1", [["D", 4]], "note")]},
      {"key": "C", "meter": [4, 4], "entries": [_e("1", [["Eb", 4]], "note")]}],
+    # 8: built with Track.from_chords from a sheet that repeats its chord symbols (every occurrence is its own chord)
+    [{"key": "C", "meter": [4, 4], "entries": [_e("1", [["C", 4], ["E", 4], ["G", 4]], "nc")], "from_chords": ["C", "Am", "C", "Am"]},
+     {"key": "C", "meter": [4, 4], "entries": [_e("1", [["A", 4], ["C", 5], ["E", 5]], "nc")]},
+     {"key": "C", "meter": [4, 4], "entries": [_e("1", [["C", 4], ["E", 4], ["G", 4]], "nc")]},
+     {"key": "C", "meter": [4, 4], "entries": [_e("1", [["A", 4], ["C", 5], ["E", 5]], "nc")]}],
 ]
 
 
@@ -267,9 +269,15 @@ def build(desc):
     """-> (real Track, model).  model[b][e] = None | [[letter, pitch number], ...]"""
     t = Track()
     model = []
+    via_chords = bool(desc) and "from_chords" in desc[0]
+    if via_chords:
+        t.from_chords(list(desc[0]["from_chords"]), 1)
     for bd in desc:
         b = Bar(bd["key"], tuple(bd["meter"]))
         mb = []
+        if via_chords:
+            model.append([[[nm[0], R.pitch_number(nm, o)] for nm, o in content] for (_v, content, _f) in bd["entries"]])
+            continue
         for (vlabel, content, form) in bd["entries"]:
             v = V.BY_LABEL[vlabel][1]
             if content is None:
@@ -432,6 +440,31 @@ def apply_action(st, target, op, check, S, site=None, tags=None, before=None):
     return after
 
 
+EDIT_NOTES = [["D", 4], ["F#", 4]]
+
+
+def apply_edit(st, how):
+    """Replace the last entry of the first non-empty bar by a fresh two-note container (same value, same
+    start beat), through Bar.__setitem__ or through remove_last_entry + place_notes."""
+    for bi, bar in enumerate(st.track.bars):
+        if len(bar.bar):
+            break
+    else:
+        return
+    ei = len(bar.bar) - 1
+    fresh = NoteContainer([Note(nm, o) for nm, o in EDIT_NOTES])
+    if how == "setitem":
+        bar[ei] = fresh
+    else:
+        value = bar.bar[ei][1]
+        bar.remove_last_entry()
+        if bar.place_notes(fresh, value) is not True:
+            raise engine.HarnessError("could not put the entry back")
+    st.model[bi][ei] = [[nm[0], R.pitch_number(nm, o)] for nm, o in EDIT_NOTES]
+    st.shape[bi][ei] = (st.shape[bi][ei][0], st.shape[bi][ei][1], len(EDIT_NOTES))
+    engine.S.count("edits_between_operations")
+
+
 def max_accidentals(snap):
     m = 0
     for bar in snap:
@@ -550,9 +583,14 @@ class HistorySpec(BfsSpec):
         return State(ZOO[self.track_index])
 
     def actions(self):
-        return [[target, op] for target in action_targets(self.track_index, self.action_set) for op in bfs_ops()]
+        acts = [[target, op] for target in action_targets(self.track_index, self.action_set) for op in bfs_ops()]
+        # edits that keep the bar's length: the operations that follow must see the new entry
+        return acts + [[["edit"], ["setitem"]], [["edit"], ["replace_last"]]]
 
     def step(self, st, act, check=True):
+        if act[0] == ["edit"]:
+            apply_edit(st, act[1][0])
+            return
         apply_action(st, act[0], act[1], check, engine.S)
 
     def invariant(self, st):
@@ -611,7 +649,7 @@ def explore(ctx):
         depth = ctx.pick(3, 4)
         aset = ctx.pick("narrow", "narrow")
         # quick: the chord-only and the tuplet-value track (many notes, nothing structurally new) go one level less deep
-        depths = {i: (depth - 1 if (ctx.quick and i in (1, 3, 6, 7)) else depth) for i in range(len(ZOO))}
+        depths = {i: (depth - 1 if (ctx.quick and i in (1, 3, 6, 7, 8)) else depth) for i in range(len(ZOO))}
         ctx.bound("history_depth", {str(i): d for i, d in depths.items()})
         ctx.bound("history_actions", {"set": aset, "targets": {str(i): action_targets(i, aset) for i in range(len(ZOO))}, "ops": bfs_ops()})
         for i in range(len(ZOO)):
